@@ -475,7 +475,8 @@ func Run(ctx *core.Ctx) {
 		"every TCP6 line of 22-24 bytes over the short address spellings with and without payload, 16% mutated (flip/delete/insert/truncate/prefix/garbage), followed by a payload; each sent in 1-4 writes " +
 		"over loopback TCP or net.Pipe to proxyproto.Listener and read back through Conn (RemoteAddr, LocalAddr, Read, Header) and through the exported ReadHeader; " +
 		"plus forwarder.Listener in every stacking the product builds around the PROXY layer (TLS, read/write limits, traffic tracking) with the bandwidth limiter in debt (new connection with header + payload at once; peer stalling inside the header; compared with Model.C08 stackRead), " +
-		"net.ParseIP/strconv.Atoi texts, stalled peers, headers trickled with pauses shorter than the header timeout (compared with Model.C08 readTimed), 4 concurrent callers and runs through the full proxy. " +
+		"net.ParseIP/strconv.Atoi texts, stalled peers, headers trickled with pauses shorter than the header timeout (compared with Model.C08 readTimed), 4 concurrent callers, " +
+		"generated sequences of calls (Read/Write/RemoteAddr/LocalAddr/Header/SetDeadline/Close, going on after errors, 1-4 goroutines) on connections whose stream is several pieces (refused header, well-formed v1/v2, payload) in any order, under every read-header timeout setting incl. 0 = no limit and every way of configuring it (compared with Model.C08 SConn.run), and runs through the full proxy. " +
 		"A connection case is non-trivial when the input carries a PROXY signature or the model does not answer 'refused'; an ip/atoi case when Go accepts the text. distinct = distinct canonical inputs (bytes, cuts, transport)")
 	for _, c := range core.LoadCorpus(ctx.Root, "C08") {
 		Replay(ctx, c)
@@ -610,6 +611,17 @@ func Run(ctx *core.Ctx) {
 	parallel(trickles, 32, func(c trickleCase) { checkTrickle(ctx, c) })
 	pwg.Wait()
 
+	// operation sequences on one connection: streams of several pieces, every read-header timeout setting
+	seqs := seqFixed()
+	for i, n := 0, ctx.N(2500, 60000); i < n; i++ {
+		seqs = append(seqs, genSeqCase(ctx.Rng.Sub()))
+	}
+	ctx.Sample(seqs[len(seqs)-1])
+	ctx.Extra("operation_sequences", fmt.Sprintf("%d connections: stream = 1-4 pieces of {rejected header (no signature, bad v1 field, over-long v1 line, v2 AF_UNIX / zero length / short address block / version / length > 2048), well-formed v1, well-formed v2, payload, generated header} in any order, sent in 1-4 writes or only 1-12 bytes of it with the rest arriving later; "+
+		"read-header timeout in {0, 0s, 0ms, 40ms, 150ms, 2s, 5s, 1m, default} set through proxyproto.Listener's fields (with and without connfu), forwarder.Listener's ListenerConfig.ProxyProtocolConfig, or the flag set command/run registers (bind.ProxyProtocol: --proxy-protocol-read-header-timeout); "+
+		"2-12 calls in generated order (Read with 1-4096 byte buffers, RemoteAddr, LocalAddr, Write, Header, SetDeadline, Close, going on after errors) from 1-4 goroutines; every answer compared with Model.C08 SConn.run .latch; a failure is filed when it shows %d times in a row", len(seqs), seqTries))
+	parallel(seqs, 32, func(c seqCase) { checkSeq(ctx, c) })
+
 	// concurrent callers
 	var concs []concCase
 	for i, n := 0, ctx.N(16, 400); i < n; i++ {
@@ -655,6 +667,10 @@ func Replay(ctx *core.Ctx, raw json.RawMessage) {
 		var c concCase
 		json.Unmarshal(raw, &c)
 		checkConc(ctx, c)
+	case "opseq":
+		var c seqCase
+		json.Unmarshal(raw, &c)
+		checkSeq(ctx, c)
 	case "trickle":
 		var c trickleCase
 		json.Unmarshal(raw, &c)
